@@ -35,6 +35,11 @@ pub fn doc_variants(pr: &Printed, n: usize) -> Vec<(Layout, Vec<usize>)> {
 }
 
 impl<'a> Doc<'a> {
+    /// true for a type identifier whose name is also the name of a parameter / variable of the
+    /// enclosing procedure (the implementation resolves identifiers by name only; finding key)
+    pub fn type_use_named_like_local(&self, o: &crate::gen::refsem::Occ) -> bool {
+        o.role == Role::TypeUse && self.sem.locals.get(o.decl).map(|l| l.contains_key(&o.name)).unwrap_or(false)
+    }
     pub fn new(item: &'a Item, layout: Layout, gaps: Vec<usize>) -> Self {
         let pr = print_program(&item.program);
         let sem = refsem::analyze(&item.program);
